@@ -117,7 +117,7 @@ def main():
             {"name": "Apalache 0.58", "path": "/opt/veriftools/apalache", "serves_properties": ["C12"],
              "kind_free_text": "symbolic checker: inductive invariant spec/apalache/TgMapInd.tla (names unique under unbounded histories of the list model); run inside ./check C12, recorded in the evidence notes"},
             {"name": "specification growth (not claimed properties)", "path": "/verif/tools/extras.sh", "serves_properties": [],
-             "kind_free_text": "./check X01..X07 X10 X11 (DESIGN section 17): splitTierEntries, spellCheckEntries, znormWindowFilter, findAll (PlusCal, liveness), first open of a KlattGrid, getPointsInInterval, the KlattGrid containers' tier map, and refinement replay of TierImpl / TgImpl (the real step equals the Impl action)"},
+             "kind_free_text": "./check X01..X08 X10 X11 (DESIGN section 17): splitTierEntries, spellCheckEntries, znormWindowFilter, findAll (PlusCal, liveness), first open of a KlattGrid, getPointsInInterval, the KlattGrid containers' tier map, generatePIMeasures, and refinement replay of TierImpl / TgImpl (the real step equals the Impl action)"},
             {"name": "harness", "path": "/verif/harness", "serves_properties": sorted(CLAIMED),
              "kind_free_text": "Python drivers: concretize TLC-emitted transitions, execute them on praatio from /repo, project results, hand NDJSON traces to TLC"},
         ],
